@@ -187,3 +187,233 @@ theorem C19_shared_cell_counterexample :
     evalFresh (shared 0) (fun x => x) [7] = [5, 7] ∧ evalFresh (owned 1) (fun x => x) [7] = [1, 7] := by
   decide
 end ChiModel.Ownership
+/-! ## free cells of the buffer are never read: a normal form -/
+namespace ChiModel.Purity
+open ChiModel.Reduced
+variable {α β : Type}
+
+/-- a free cell's content is never read: normal form with the free cells blanked -/
+def canonCell (g : α) (x : Bool × α) : Bool × α := if x.1 then x else (false, g)
+def normSt (g : α) : St α → St α := Option.map (List.map (canonCell g))
+
+theorem fill_canon (g : α) : ∀ (c : List (Bool × α)) (free : List α),
+    fill (c.map (canonCell g)) free = fill c free
+  | [], _ => by simp [fill]
+  | (true, v) :: cs, free => by simp [fill, canonCell, fill_canon g cs free]
+  | (false, v) :: cs, x :: free => by simp [fill, canonCell, fill_canon g cs free]
+  | (false, v) :: cs, [] => by simp [fill, canonCell]
+
+theorem restrict_canon {γ : Type} (g : α) : ∀ (c : List (Bool × α)) (l : List γ),
+    restrict (c.map (canonCell g)) l = restrict c l
+  | [], _ => by simp [restrict]
+  | (b, v) :: cs, [] => by cases b <;> simp [restrict, canonCell]
+  | (true, v) :: cs, y :: l => by simp [restrict, canonCell, restrict_canon g cs l]
+  | (false, v) :: cs, y :: l => by simp [restrict, canonCell, restrict_canon g cs l]
+
+theorem canon_writeFree (g : α) : ∀ (c : List (Bool × α)) (w : List α),
+    (writeFree c w).map (canonCell g) = c.map (canonCell g)
+  | [], _ => by simp [writeFree]
+  | (true, v) :: cs, w => by simp [writeFree, canon_writeFree g cs w]
+  | (false, v) :: cs, x :: w => by simp [writeFree, canonCell, canon_writeFree g cs w]
+  | (false, v) :: cs, [] => by simp [writeFree, canonCell, canon_writeFree g cs []]
+
+theorem canon_upd (g : α) (d : Req α) (n : String) (mb : Bool × α) :
+    canonCell g (upd g d n mb) = upd g d n (canonCell g mb) := by
+  unfold upd
+  cases lookupLast d n with
+  | none => rfl
+  | some r => cases r <;> simp [canonCell]
+
+theorem zipWith_upd_canon (g : α) (d : Req α) : ∀ (names : List String) (c : List (Bool × α)),
+    List.zipWith (upd g d) names (c.map (canonCell g)) = (List.zipWith (upd g d) names c).map (canonCell g)
+  | [], _ => by simp
+  | _ :: _, [] => by simp
+  | n :: ns, x :: c => by simp [canon_upd, zipWith_upd_canon g d ns c]
+
+theorem all_free_canon (g : α) (c : List (Bool × α)) :
+    (c.map (canonCell g)).all (fun x => !x.1) = c.all (fun x => !x.1) := by
+  induction c with
+  | nil => rfl
+  | cons x xs ih => rcases x with ⟨b, v⟩; cases b <;> simp [canonCell, ih]
+
+theorem view_norm (names : List String) (g : α) (st : St α) :
+    view names g (normSt g st) = (view names g st).map (canonCell g) := by
+  cases st <;> simp [view, normSt, canonCell, Function.comp_def]
+
+theorem norm_fixStep (names : List String) (g : α) (st : St α) (d : Req α) :
+    normSt g (fixStep names g st d) = fixStep names g (normSt g st) d := by
+  simp only [fixStep, view_norm, zipWith_upd_canon, all_free_canon]
+  split <;> simp [normSt]
+
+theorem freeOf_norm (names : List String) (g : α) (st : St α) :
+    freeOf names g (normSt g st) = freeOf names g st := by
+  simp [freeOf, view_norm, restrict_canon]
+
+theorem evalFresh_norm (g : α) (st : St α) (F : List α → β) (free : List α) :
+    evalFresh (normSt g st) F free = evalFresh st F free := by
+  cases st <;> simp [evalFresh, evalStep, normSt, fill_canon]
+
+theorem norm_evalStep (g : α) (st : St α) (F : List α → β) (free : List α) :
+    normSt g (evalStep st F free).1 = normSt g st := by
+  cases st <;> simp [evalStep, normSt, canon_writeFree]
+
+end ChiModel.Purity
+
+/-! ## evaluations interleaved with re-configuration -/
+namespace ChiModel.Purity
+open ChiModel.Reduced
+variable {α β : Type}
+
+/-- whenever sensitivities are on, they are on for exactly the currently free names -/
+def ColsOK (names : List String) (g : α) (m : MSt α) : Prop :=
+  ∀ cs, m.columns = some cs → cs = freeOf names g m.cfg
+
+theorem columns_off (m : MSt α) (h : m.hasSens = false) : m.columns = none := by
+  rcases m with ⟨c, i, e⟩
+  cases e <;> cases i <;> simp [MSt.hasSens, MSt.columns] at *
+
+theorem columns_on (names : List String) (g : α) (m : MSt α) (hm : ColsOK names g m) (h : m.hasSens = true) :
+    m.columns = some (freeOf names g m.cfg) := by
+  rcases m with ⟨c, i, e⟩
+  cases e with
+  | true => exact congrArg some (hm [] (by simp [MSt.columns]))
+  | false => cases i with
+    | none => simp [MSt.hasSens] at h
+    | some ns => exact congrArg some (hm ns (by simp [MSt.columns]))
+
+theorem enable_cfg (names : List String) (g : α) (m : MSt α) (b : Bool) : (enableM names g m b).cfg = m.cfg := by
+  unfold enableM; cases b <;> simp <;> split <;> rfl
+
+theorem enable_true_columns (names : List String) (g : α) (m : MSt α) :
+    (enableM names g m true).columns = some (freeOf names g m.cfg) := by
+  unfold enableM
+  simp only [Bool.not_true, Bool.false_eq_true, if_false]
+  split
+  · rename_i h; simp [MSt.columns, List.isEmpty_iff.mp h]
+  · simp [MSt.columns]
+
+theorem enable_false_columns (names : List String) (g : α) (m : MSt α) :
+    (enableM names g m false).columns = none := by
+  simp [enableM, MSt.columns]
+
+theorem colsOK_enable (names : List String) (g : α) (m : MSt α) (b : Bool) : ColsOK names g (enableM names g m b) := by
+  intro cs h
+  cases b with
+  | false => simp [enable_false_columns] at h
+  | true => rw [enable_true_columns] at h; rw [enable_cfg]; exact (Option.some.inj h).symm
+
+theorem colsOK_fix (names : List String) (g : α) (m : MSt α) (d : Req α) : ColsOK names g (fixM names g m d) := by
+  unfold fixM
+  simp only
+  split
+  · exact colsOK_enable names g _ true
+  · rename_i h
+    intro cs hc
+    rw [columns_off _ (by simpa using h)] at hc
+    cases hc
+
+theorem freeOf_evalStep (names : List String) (g : α) (st : St α) (F : List α → β) (free : List α) :
+    freeOf names g (evalStep st F free).1 = freeOf names g st := by
+  rw [← freeOf_norm, norm_evalStep, freeOf_norm]
+
+theorem colsOK_sim (names : List String) (g : α) (m : MSt α) (free : List α) (hm : ColsOK names g m) :
+    ColsOK names g (simM names g m free).1 := by
+  intro cs h
+  simp only [simM, freeOf_evalStep]
+  exact hm cs h
+
+/-- C19 (sensitivity set-up follows the configuration): after ANY history of fixes, releases, switching
+    and simulations on a reduced mechanistic model, the sensitivity block `simulate` returns has exactly one
+    column per parameter that is free NOW, in order — never a column of a parameter that was free
+    when an earlier evaluation switched the sensitivities on. -/
+theorem C19_sens_columns_follow_configuration (names : List String) (g : α) (p : List (MOp α)) :
+    ColsOK names g (runM names g MSt.init p) := by
+  suffices h : ∀ m, ColsOK names g m → ColsOK names g (runM names g m p) by
+    exact h _ (by intro cs hc; simp [MSt.init, MSt.columns] at hc)
+  induction p with
+  | nil => exact fun m hm => hm
+  | cons op rest ih =>
+    intro m hm
+    simp only [runM, List.foldl_cons]
+    apply ih
+    cases op with
+    | fix d => exact colsOK_fix names g m d
+    | sens b => exact colsOK_enable names g m b
+    | sim free => exact colsOK_sim names g m free hm
+
+/-- the result of a likelihood evaluation is a function of the operation, the input and the
+    (normalised) configuration only -/
+theorem llEval_result (names : List String) (g : α) (m : MSt α) (hm : ColsOK names g m) (op : LLOp) (free : List α) :
+    (llEvalM names g m op free).2 =
+      (evalFresh (normSt g m.cfg) (fun x => x) free,
+       if llStep false op then some (freeOf names g (normSt g m.cfg)) else none) := by
+  have hstep : ∀ b, llStep b op = llStep false op := fun b => by cases op <;> rfl
+  unfold llEvalM
+  simp only [hstep m.hasSens]
+  rw [evalFresh_norm, freeOf_norm]
+  by_cases hs : m.hasSens = llStep false op
+  · simp only [hs, beq_self_eq_true, if_true, simM]
+    cases hw : llStep false op with
+    | true => simp [columns_on names g m hm (hs.trans hw)]
+    | false => simp [columns_off m (hs.trans hw)]
+  · have : (m.hasSens == llStep false op) = false := by simpa using hs
+    simp only [this, Bool.false_eq_true, if_false, simM, enable_cfg]
+    cases hw : llStep false op with
+    | true => simp [enable_true_columns]
+    | false => simp [enable_false_columns]
+
+theorem llEval_state (names : List String) (g : α) (m : MSt α) (hm : ColsOK names g m) (op : LLOp) (free : List α) :
+    ColsOK names g (llEvalM names g m op free).1 ∧ normSt g (llEvalM names g m op free).1.cfg = normSt g m.cfg := by
+  unfold llEvalM
+  simp only
+  split
+  · exact ⟨colsOK_sim names g m free hm, by simp [simM, norm_evalStep]⟩
+  · exact ⟨colsOK_sim names g _ free (colsOK_enable names g m _), by simp [simM, norm_evalStep, enable_cfg]⟩
+
+theorem fixM_norm (names : List String) (g : α) (m m' : MSt α) (d : Req α) (h : normSt g m.cfg = normSt g m'.cfg) :
+    normSt g (fixM names g m d).cfg = normSt g (fixM names g m' d).cfg := by
+  have : ∀ m : MSt α, (fixM names g m d).cfg = fixStep names g m.cfg d := by
+    intro m; unfold fixM; simp only; split <;> simp [enable_cfg]
+  rw [this, this, norm_fixStep, norm_fixStep, h]
+
+/-- C19 (evaluations leave no trace across re-configurations): after ANY history of `fix_parameters`
+    calls and evaluations (value, pointwise, with sensitivities — in any order) on a likelihood, an
+    evaluation returns what it returns on a twin that went through the `fix_parameters` calls only:
+    same full parameter vector at the solver, sensitivity columns for the same names. -/
+theorem C19_reconfigure_history_free (names : List String) (g : α) (p : List (LOp α)) (op : LLOp) (free : List α) :
+    (llEvalM names g (runL names g MSt.init p) op free).2 =
+    (llEvalM names g (runL names g MSt.init (p.filter LOp.isFix)) op free).2 := by
+  suffices h : ∀ m m' : MSt α, ColsOK names g m → ColsOK names g m' → normSt g m.cfg = normSt g m'.cfg →
+      ColsOK names g (runL names g m p) ∧ ColsOK names g (runL names g m' (p.filter LOp.isFix)) ∧
+      normSt g (runL names g m p).cfg = normSt g (runL names g m' (p.filter LOp.isFix)).cfg by
+    have h0 : ColsOK names g (MSt.init : MSt α) := by intro cs hc; simp [MSt.init, MSt.columns] at hc
+    obtain ⟨h1, h2, h3⟩ := h _ _ h0 h0 rfl
+    rw [llEval_result names g _ h1, llEval_result names g _ h2, h3]
+  induction p with
+  | nil => exact fun m m' hm hm' h => ⟨hm, hm', h⟩
+  | cons x rest ih =>
+    intro m m' hm hm' h
+    cases x with
+    | fix d =>
+      simp only [runL, List.filter_cons, LOp.isFix, if_true, List.foldl_cons, stepL]
+      exact ih _ _ (colsOK_fix names g m d) (colsOK_fix names g m' d) (fixM_norm names g m m' d h)
+    | eval o fr =>
+      simp only [runL, List.filter_cons, LOp.isFix, Bool.false_eq_true, if_false, List.foldl_cons, stepL]
+      have := llEval_state names g m hm o fr
+      exact ih _ _ this.1 hm' (this.2.trans h)
+
+/-- … whereas with the shortcut "repeat the sensitivity set-up only when the NUMBER of free parameters
+    changed" an earlier evaluation with sensitivities shows: swap which parameter is fixed, and the next
+    `evaluateS1` gets the column of the parameter that is fixed now (`b`) in place of the freed one (`a`);
+    the twin that was never evaluated gets the right columns. -/
+theorem C19_count_shortcut_counterexample :
+    let names := ["a", "b", "c"]
+    let swap : Req Nat := [("a", none), ("b", some 3)]
+    let before := fixM names 0 MSt.init [("a", some 2)]
+    let evaluated := (llEvalM names 0 before LLOp.s1 [4, 5]).1
+    (llEvalM names 0 (fixMCount names 0 evaluated swap) LLOp.s1 [7, 5]).2 = ([7, 3, 5], some ["b", "c"]) ∧
+    (llEvalM names 0 (fixMCount names 0 before swap) LLOp.s1 [7, 5]).2 = ([7, 3, 5], some ["a", "c"]) ∧
+    (llEvalM names 0 (fixM names 0 evaluated swap) LLOp.s1 [7, 5]).2 = ([7, 3, 5], some ["a", "c"]) := by
+  decide
+
+end ChiModel.Purity
